@@ -8,4 +8,5 @@ Extraction "c15m.ml" keep_types escape escape_stream unescape amps_ok markup_fre
   b64encode b64decode encoded_size decoded_size encode_str decode_str b64_alphabet_ok
   b64_canonical filter_escape filter_urlencode filter_base64 widget_ctx render_slot take_until
   filter_escape_sink filter_urlencode_sink filter_base64_sink render_full render_supported
-  filter_escape_stream_ok filter_urlencode_stream_ok filter_base64_stream_ok filter_on_failed_stream filter_base64_on_failed_stream urlencode_stream.
+  filter_escape_stream_ok filter_urlencode_stream_ok filter_base64_stream_ok filter_on_failed_stream filter_base64_on_failed_stream urlencode_stream
+  escape_gs urlencode_gs fbg_run R_escape R_urlencode filter_base64_gs acc_of.
